@@ -34,6 +34,19 @@ def clause(ex, st, contract, node, frame_vars, old=None):
     return S.truthy(v)
 
 
+def clause_value(ex, st, contract, lam, args):
+    """apply a one-argument contract lambda (AST) to a value: the value of its body"""
+    from .engine import Exec
+    sub = Exec(ex.eng, ex.fr, total=True, modname=None, specmod=contract.specmod)
+    sub.clause_module = contract.module
+    st.frames.append({"y": args[0]})      # the lambda's parameter is named y by convention
+    try:
+        v = sub.one(st, lam)
+    finally:
+        st.frames.pop()
+    return v
+
+
 def clause_term(ex, st, contract, node, frame_vars):
     """evaluate a clause expression to an Int term (decreases measures)"""
     from .engine import Exec
